@@ -12,6 +12,7 @@
  */
 
 #include "cppStructType.h"
+#include "cppArrayType.h"
 #include "cppTypedefType.h"
 #include "cppReferenceType.h"
 #include "cppScope.h"
@@ -588,6 +589,29 @@ is_default_constructible(CPPVisibility min_vis) const {
 
     if (!instance->_type->is_default_constructible()) {
       return false;
+    }
+
+    // A const-qualified member (or array thereof) without a default member
+    // initializer makes the implicit default constructor deleted, unless it
+    // is of a class type that has a user-provided default constructor.
+    CPPType *member_type = instance->_type;
+    while (member_type->as_array_type() != nullptr) {
+      member_type = member_type->as_array_type()->_element_type;
+    }
+    if (member_type->is_const()) {
+      CPPType *bare_type = member_type->remove_cv();
+      while (bare_type->as_typedef_type() != nullptr) {
+        bare_type = bare_type->as_typedef_type()->_type->remove_cv();
+      }
+      CPPStructType *member_struct = bare_type->as_struct_type();
+      CPPInstance *member_ctor = nullptr;
+      if (member_struct != nullptr) {
+        member_ctor = member_struct->get_default_constructor();
+      }
+      if (member_ctor == nullptr ||
+          (member_ctor->_storage_class & CPPInstance::SC_defaulted) != 0) {
+        return false;
+      }
     }
   }
 
